@@ -48,6 +48,7 @@ _REC = None          # active recorder
 _ILL = []            # reads skipped because package and indexer are out of step
 _EXEC = []           # operations of the last history that really ran
 _TRUNC = []          # where the last history was cut short (an operation the library rejected)
+_NOTE = set()     # per-case information tags (revisited states, packages read under, NaN-vs-NaN reads)
 _COUNT = [0]
 
 
@@ -247,7 +248,7 @@ def run_ops(ops):
     w = World()
     model_in, outs, failures = [], [], []
     hits = changes = 0
-    trunc = _TRUNC; trunc.clear()
+    trunc = _TRUNC; trunc.clear(); _NOTE.clear()
     _EXEC.clear(); w.executed = _EXEC
     illformed = _ILL; illformed.clear()
     def emit(line, ans):
@@ -334,6 +335,9 @@ def run_ops(ops):
                 # "regardless of how the stream reached that state": an earlier read of the same property in the very same
                 # state (package, phase(s), T, P, flows) during this history gave the value the property has there
                 hk = (pkg_id(s.thermo), attr, state_key(s, False), tuple(map(float, np.asarray(s.imol.data.sum(0) if isinstance(s, tmo.MultiStream) else s.imol.data.to_array()).ravel())))
+                if hk in w.seen: _NOTE.add('same-state-revisit')
+                if val != val and ref != ref: _NOTE.add('read:nan-both')     # e.g. after `badset S`: a vacuous comparison, counted
+                _NOTE.add(f'read:pkg{pkg_id(s.thermo)}')
                 if hk in w.seen and not same(w.seen[hk], val) and same(val, ref):
                     failures.append({'signature': f'history-dependent:{w.kind[o]}:after-{w.last_mut[0]}', 'op_index': len(model_in) - 1,
                                      'what': f'`{attr}` reads {val!r} (a fresh stream agrees) but the same property read earlier in this history in the '
@@ -574,6 +578,7 @@ def run_impl(case: Case) -> ImplResult:
     tags = sorted(set(_EXEC) | created) + sorted({'ans:' + o.split(' ')[0] for o in outs}) + list(_TRUNC)
     tags.append('history:complete' if not _TRUNC else 'history:cut')
     if _ILL: tags.append('skip:package-and-indexer-out-of-step')
+    tags += sorted(_NOTE)
     return ImplResult(model_in=model_in, outs=outs, failures=failures, tags=tags,
                       nontrivial=(tuple(case.ops) if hits and changes else None))
 
